@@ -199,7 +199,8 @@ TECHNIQUE = "runtime monitoring: generated documents of the PROV-O-expressible s
 LEVEL_TEXT = ("Exploration by runtime observation: programs drawn from the PROV-O-expressible space (every clause of the quantifier is a generator "
               "constraint and is re-checked on the built document) are serialised to default TriG and deserialised; the strict snapshot of the "
               "unified result is compared, as sets per bundle, with the strict snapshot of the unified original; a per-relation count oracle "
-              "reports relations that came back zero or two times. The evidence tallies kind x {identified, anonymous+qualified, unqualified}.")
+              "reports relations that came back zero or two times. The evidence tallies kind x {identified, anonymous+qualified, unqualified}."
+              " Identified specialization / alternate / membership, IRIs in names, PROV subclasses as element types, values of int / datetime subclasses, a second export after a change, several source kinds and (a third of the cases) warnings as errors are part of the workload.")
 LEVEL_NOTE = ("Trusted: rdflib as TriG writer/parser on both sides (a defect of rdflib is indistinguishable from one of prov except by reading the "
               "witness), the strict snapshot, the space filter. Bounded documents.")
 DESIGN_REF = "DESIGN.md section 6, C07"
